@@ -68,10 +68,10 @@ func (w *drvCapWriter) take() ([]byte, int) {
 // ---- attribute specs (serialisable, so that histories replay and shrink) --------------------------
 
 type drvAttrSpec struct {
-	K string     `json:"k"`
-	T string     `json:"t"` // s string | i int | b bool | g group | v LogValuer resolving to a group
-	S string     `json:"s,omitempty"`
-	I int64      `json:"i,omitempty"`
+	K string        `json:"k"`
+	T string        `json:"t"` // s string | i int | b bool | g group | v LogValuer resolving to a group
+	S string        `json:"s,omitempty"`
+	I int64         `json:"i,omitempty"`
 	G []drvAttrSpec `json:"g,omitempty"`
 }
 
@@ -210,8 +210,8 @@ func drvNewRootHandler(kind string, w *drvCapWriter, colorful bool) logger.Handl
 
 // one derivation of a chain
 type drvChainOp struct {
-	Group bool       `json:"group,omitempty"`
-	Name  string     `json:"name,omitempty"`
+	Group bool          `json:"group,omitempty"`
+	Name  string        `json:"name,omitempty"`
 	Attrs []drvAttrSpec `json:"attrs,omitempty"`
 }
 
@@ -227,8 +227,8 @@ func drvApplyChain(h logger.Handler, chain []drvChainOp) logger.Handler {
 }
 
 type drvRecSpec struct {
-	Level int        `json:"level"`
-	Msg   string     `json:"msg"`
+	Level int           `json:"level"`
+	Msg   string        `json:"msg"`
 	Attrs []drvAttrSpec `json:"attrs,omitempty"`
 }
 
@@ -360,13 +360,13 @@ func drvHasSpare(preLen int) bool {
 // ---- histories --------------------------------------------------------------------------------
 
 type drvOp struct {
-	Op     string     `json:"op"` // attrs | group | log
-	Node   int        `json:"node"`
-	New    int        `json:"new,omitempty"` // label of the node a derivation creates
+	Op     string        `json:"op"` // attrs | group | log
+	Node   int           `json:"node"`
+	New    int           `json:"new,omitempty"` // label of the node a derivation creates
 	Attrs  []drvAttrSpec `json:"attrs,omitempty"`
-	Name   string     `json:"name,omitempty"`
+	Name   string        `json:"name,omitempty"`
 	Rec    *drvRecSpec   `json:"rec,omitempty"`
-	ViaLog bool       `json:"via_logger,omitempty"` // log through Logger.Log instead of Handler.Handle
+	ViaLog bool          `json:"via_logger,omitempty"` // log through Logger.Log instead of Handler.Handle
 }
 
 type drvNode struct {
@@ -389,9 +389,9 @@ type deriveFailure struct {
 }
 
 type deriveHistory struct {
-	Kind     string `json:"kind"`
-	Colorful bool   `json:"colorful"`
-	Ops      []drvOp  `json:"ops"`
+	Kind     string  `json:"kind"`
+	Colorful bool    `json:"colorful"`
+	Ops      []drvOp `json:"ops"`
 }
 
 // drvExecHistory runs a history on the real code. Operations naming an unknown label are skipped (so
